@@ -7,3 +7,4 @@ import Ymq.Props.C19
 #print axioms Ymq.C19.snf_reduce_cols_iso_partial
 #print axioms Ymq.C19.echelon_det_partial
 #print axioms Ymq.C19.det_exact_partial
+#print axioms Ymq.C19.crt_symmetric_closed
